@@ -66,6 +66,15 @@ func (i *Int) Compare(other Object) (int, error) {
 			return 1, nil
 		}
 		return -1, nil
+	case *FileMode:
+		// A file mode compares itself with an int; this is the mirror image
+		if i.value == int64(other.value) {
+			return 0, nil
+		}
+		if i.value > int64(other.value) {
+			return 1, nil
+		}
+		return -1, nil
 	default:
 		return 0, errz.TypeErrorf("type error: unable to compare int and %s", other.Type())
 	}
@@ -82,6 +91,10 @@ func (i *Int) Equals(other Object) Object {
 			return True
 		}
 	case *Byte:
+		if i.value == int64(other.value) {
+			return True
+		}
+	case *FileMode:
 		if i.value == int64(other.value) {
 			return True
 		}
